@@ -156,3 +156,9 @@ func VerifReadOffset(p *Plugin, ino uint64) (int64, bool) {
 	}
 	return 0, false
 }
+
+// VerifTreatedAsLz4: does the plugin read a file of this name through the lz4
+// decoder (the answer depends on the machine's MIME tables)?
+func VerifTreatedAsLz4(name string) bool {
+	return isCompressed(getMimeType(name)) && getMimeType(name) == "application/x-lz4"
+}
